@@ -253,13 +253,33 @@ SIZE_BODIES = re.compile(r"(generic_grow|alloc_slice|prepare_allocation_range|fo
                          r"in_another_chunk|ArrayLayout::array|generic_with_capacity)")
 
 
+PLAIN_OK = {
+    # (fn name) -> reason a plain multiplication/addition on a caller-supplied count cannot overflow there
+    "allocate_prepared_slice": "len <= cap of a prepared range whose byte size was computed with Layout::array at prepare time",
+    "allocate_prepared_slice_rev": "len <= cap of a prepared range whose byte size was computed with Layout::array at prepare time",
+}
+
+
 def r5_overflow(ctx, P, R="C07.R5"):
     ctx.rule(R, "checked size computations: the failure edge constructs capacity_overflow / invalid_slice_layout / None and "
-                "their results are never unwrapped")
+                "their results are never unwrapped; no plain + or * on a caller-supplied count in these bodies")
     n = 0
+    nplain = 0
     for b in P.fn_bodies():
         if not SIZE_BODIES.search(b.path):
             continue
+        usz = [l for l in range(1, b.argc + 1) if b.locals[l]["ty"] == "usize"]
+        for s, st in b.assigns():
+            r = st["r"]
+            if r["k"] == "bin" and r["op"] in ("Add", "AddWithOverflow", "AddUnchecked", "Mul", "MulWithOverflow", "MulUnchecked") and usz:
+                ops = (b.prov_operand(r["a"], s), b.prov_operand(r["b"], s))
+                if any(expr_mentions(x, lambda y: y[0] == "param" and y[1] in usz) for x in ops):
+                    nplain += 1
+                    why = PLAIN_OK.get(b.item["name"])
+                    ctx.inst(R, b.path, why is not None, (f"plain `{r['op']}` on a caller-supplied count: {why}" if why else
+                             f"plain `{r['op']}` of {show(ops[0])[:40]} and {show(ops[1])[:40]}: for a huge count this overflows - a panic in "
+                             "debug builds (also inside try_ methods), a wrapped value in release builds (a full fixed vector 'has room')"),
+                             where=b.where(s), site=f"plain {r['op'].replace('WithOverflow', '').replace('Unchecked', '')} on a count")
         for s, t in b.calls():
             f = t["f"]
             nm = f.get("name")
